@@ -389,10 +389,12 @@ class Drawer:
 
     def draw(self, state, e, steps=1):
         state = np.asarray(state, dtype=float)
+        tol0 = getattr(self.s, "tol", None)        # what the constructor made of tol=SOLVER_TOL (left untouched at first)
         try:
             for attempt in range(3):
                 tol = SOLVER_TOL * 100.0 ** attempt
-                self.s.tol = tol
+                if attempt > 0:
+                    self.s.tol = tol
                 with SolverWatch() as w:
                     x = self._draw_once(state, e, steps)
                 self.ctx.count("cgls_solves_observed", len(w.calls))
@@ -412,7 +414,8 @@ class Drawer:
             self.unconverged += 1
             return x                              # judged as it is
         finally:
-            self.s.tol = SOLVER_TOL
+            if tol0 is not None:
+                self.s.tol = tol0
 
     def _after(self, feed, other, steps):
         self.ctx.count("normal_draws_scripted", len(feed.layout))
